@@ -55,7 +55,7 @@ def build(chk):
     chk.notes.append("library contract: numpy.random.default_rng(int) is a deterministic function of the int, default_rng(Generator) returns the same object, Generator.normal mutates only its receiver; FFT and numba kernels are deterministic")
     chk.notes.append("with these frame clauses the returned screen and every later row are terms over (arguments, seed) only, so nothing another call or instance can touch occurs in them")
     chk.not_decided.append("different seeds give different screens and unseeded calls differ (probabilistic / entropy statement)")
-    if chk.tier == "thorough":
+    if True:       # bounded native stand-in (interleaved histories of several instances), every tier; longer histories in the thorough tier
         fam = chk.native("family", None, None)
         chk.native_evals += int(fam.get("evaluations", 0) or 0)
         chk.bounded.append({"name": "native reproducibility histories", "bound": "see native/C06.py", "evaluations": fam.get("evaluations"), "result": fam.get("status"), "detail": fam.get("message")})
